@@ -239,6 +239,111 @@ def seek_validates(tu):
         raise AnalysisError("BTreeItems_seek commits a non-variable position")
 
     CASES = ("negative", "in range", "at or beyond len")
+    commit = stores["currentoffset"][0]
+
+    # ---- a local that holds the committed bucket's current len ---------------------
+    # `n = bkt->len`, or `helper(bkt, &n, ..)` where the helper stores its bucket
+    # parameter's len through that out-parameter on every path that does not
+    # return a failure: the local stands for bkt->len at a test when every
+    # definition of it that reaches the test is of this kind and the bucket
+    # variable was not reassigned in between.
+    def defs_of(nd, var):
+        """does this node (re)define the local `var`?"""
+        if nd.e is None:
+            return False
+        for a in nd.e.walk():
+            if a.k in ("BinaryOperator", "CompoundAssignOperator") and (a.v == "=" or a.k == "CompoundAssignOperator") \
+                    and path(a.kids[0]) == var:
+                return True
+            if a.k == "UnaryOperator" and a.v in ("++", "--", "post++", "post--", "pre++", "pre--", "&") \
+                    and path(a.kids[0]) == var:
+                return True
+            if a.k == "VarDecl" and a.n == var:
+                return True
+        return False
+
+    def reaching(var):
+        """{node id: set of ids of the nodes defining var that reach its entry}"""
+        IN = {cfg.entry.id: frozenset()}
+        work = [cfg.entry]
+        while work:
+            nd = work.pop()
+            cur = IN[nd.id]
+            o = frozenset([nd.id]) if defs_of(nd, var) else cur
+            for _, s2 in nd.succ:
+                old = IN.get(s2.id)
+                new = o if old is None else old | o
+                if new != old:
+                    IN[s2.id] = new
+                    work.append(s2)
+        return IN
+    by_id = dict((nd.id, nd) for nd in live)
+    rd_cache = {}
+
+    def helper_stores_len(call, var):
+        """call f(.., bkt, .., &var, ..): f stores <bucket parameter>->len through
+        the parameter bound to &var, as a top-level statement, and returns a
+        negative constant on every return before it"""
+        c = callee(call)
+        if c[0] != "fn" or c[1] not in tu.funcs or tu.body(c[1]) is None:
+            return False
+        params = [p.n for p in tu.params(c[1])]
+        args = call.kids[1:]
+        bpar = opar = None
+        for pn, a in zip(params, args):
+            a0 = strip(a)
+            if path(a0) == bkt:
+                bpar = pn
+            if a0 is not None and a0.k == "UnaryOperator" and a0.v == "&" and path(a0.kids[0]) == var:
+                opar = pn
+        if bpar is None or opar is None:
+            return False
+        for st in tu.body(c[1]).kids:
+            for r in st.walk():
+                if r.k == "ReturnStmt":
+                    v = const_int(r.kids[0]) if r.kids else None
+                    if v is None or v >= 0:
+                        return False
+            x = strip(st)
+            if x is not None and x.k == "BinaryOperator" and x.v == "=":
+                l0, r0 = strip(x.kids[0]), strip(x.kids[1])
+                if l0 is not None and l0.k == "UnaryOperator" and l0.v == "*" and path(l0.kids[0]) == opar and \
+                        r0 is not None and r0.k == "MemberExpr" and r0.n == "len" and path(r0.kids[0]) == bpar:
+                    return True
+        return False
+
+    def holds_len(var, g):
+        if var == off or var == bkt:
+            return False
+        for v2 in (var, bkt):
+            if v2 not in rd_cache:
+                rd_cache[v2] = reaching(v2)
+        ds = rd_cache[var].get(g.id, frozenset())
+        if not ds:
+            return False
+        for d in ds:
+            nd = by_id.get(d)
+            if nd is None or nd.e is None:
+                return False
+            good = False
+            for a in nd.e.walk():
+                if a.k == "BinaryOperator" and a.v == "=" and path(a.kids[0]) == var:
+                    r0 = strip(a.kids[1])
+                    good = r0 is not None and r0.k == "MemberExpr" and r0.n == "len" and path(r0.kids[0]) == bkt
+                elif a.k == "CallExpr" and helper_stores_len(a, var):
+                    # the failing call must not reach the commit
+                    e0 = strip(nd.e)
+                    if nd.kind == "branch" and e0 is not None and e0.k == "BinaryOperator" and e0.v == "<" and \
+                            const_int(e0.kids[1]) == 0 and strip(e0.kids[0]) is a:
+                        fs = [s2 for l, s2 in nd.succ if l == "T"]
+                        good = bool(fs) and commit.id not in reach(fs[0], nd)
+            if not good:
+                return False
+            # the same bucket at the definition and at the test
+            if rd_cache[bkt].get(d, frozenset()) != rd_cache[bkt].get(g.id, frozenset()) or defs_of(nd, bkt):
+                return False
+        return True
+    cur_g = [None]
 
     def truth(e, case):
         """value of expression e when the offset is in the given case, or None
@@ -267,7 +372,8 @@ def seek_validates(tu):
             if const_int(b) == 0:
                 neg = case == "negative"
                 return {"<": neg, ">=": not neg, "<=": None, ">": None}[op]
-            if b is not None and b.k == "MemberExpr" and b.n == "len" and path(b.kids[0]) == bkt:
+            if b is not None and ((b.k == "MemberExpr" and b.n == "len" and path(b.kids[0]) == bkt) or
+                                  (b.k == "DeclRefExpr" and cur_g[0] is not None and holds_len(b.n, cur_g[0]))):
                 big = case == "at or beyond len"
                 return {">=": big, "<": not big, ">": None, "<=": None}[op]
             if b is not None and b.k == "BinaryOperator" and b.v == "-" and const_int(b.kids[1]) == 1:
@@ -287,7 +393,6 @@ def seek_validates(tu):
             st.extend(s2 for _, s2 in q.succ)
         return seen
     findings = []
-    commit = stores["currentoffset"][0]
     # for each case of the offset: is the commit reachable?  A dominating
     # branch whose condition (directly, or through a flag computed from such a
     # condition) has a definite value in that case and whose corresponding edge
@@ -312,6 +417,7 @@ def seek_validates(tu):
                     exprs.append(x.kids[-1])
             if not exprs:
                 continue
+        cur_g[0] = None if is_flag else g
         for case in CASES:
             vals = [truth(x, case) for x in exprs]
             if any(v is None for v in vals) or len(set(vals)) != 1:
